@@ -225,6 +225,41 @@ func checkC06(p *Prog, r *Report) {
 			r.Cond(ok, "C06/MODULE-FROM-TABLE", "HandleDaemonConn → handleConn(&module)", p.Pos(instrPos(c)), "module must be the getModule result")
 		})
 	}
+	// ---- SOURCE-PROVENANCE ----
+	r.Rule("C06/SOURCE-PROVENANCE", "sender.Transfer.Source is only ever set to sender.NewFSSource(<load of Module.FS>) (the file system the embedding program configured); every production call of NewFSSource has that argument; no production code builds an ambient fs.FS (os.DirFS, os.CopyFS): such a file system follows symlinks out of its directory", 2)
+	srcF := p.Field(pkgSender, "Transfer", "Source")
+	modFSF := p.Field(pkgRsyncd, "Module", "FS")
+	nfs := p.Func(pkgSender, "", "NewFSSource")
+	if srcF == nil || modFSF == nil || nfs == nil {
+		r.Fatalf("anchor unresolved: sender.Transfer.Source / rsyncd.Module.FS / sender.NewFSSource")
+	} else {
+		isModFS := func(v ssa.Value) bool { return isFieldLoad(stripConv(v), modFSF) }
+		for _, st := range storesToField(p, srcF) {
+			fn := st.Parent()
+			if isTestSupport(pkgPathOfFunc(fn)) {
+				continue
+			}
+			ok := false
+			if c, isC := stripConv(st.Val).(*ssa.Call); isC && c.Common().StaticCallee() == nfs && len(c.Common().Args) == 1 && isModFS(c.Common().Args[0]) {
+				ok = true
+			}
+			r.Cond(ok, "C06/SOURCE-PROVENANCE", funcKey(fn)+" store sender.Transfer.Source", p.Pos(st.Pos()), "the sender's file source must be NewFSSource(module.FS) or stay unset (os.Root on the module path)")
+		}
+		for _, fn := range p.ModFuncs {
+			if isTestSupport(pkgPathOfFunc(fn)) {
+				continue
+			}
+			allCalls(fn, func(c ssa.CallInstruction) {
+				switch {
+				case c.Common().StaticCallee() == nfs:
+					r.Cond(len(c.Common().Args) == 1 && isModFS(c.Common().Args[0]), "C06/SOURCE-PROVENANCE", funcKey(fn)+" → NewFSSource(arg)", p.Pos(instrPos(c)), "argument must be the configured Module.FS")
+				case calleeName(c) == "os.DirFS" || calleeName(c) == "os.CopyFS":
+					r.Bad("C06/SOURCE-PROVENANCE", funcKey(fn)+" → "+calleeName(c), p.Pos(instrPos(c)), "ambient fs.FS over a directory: symlinks inside it are followed to anywhere on the host")
+				}
+			})
+		}
+	}
+
 	r.Trust("os.Root refuses to follow symlinks that leave the root; fs.WalkDir over root.FS() stays inside the root")
 	r.Assume("fs.FS implementations supplied by library users are trusted; os/user lookups are not disclosure of module-external files")
 	r.Assume("module lookup and ACL are decided under C19/ORDER")
